@@ -10,6 +10,7 @@
             creation order (rest/doc_api.go handlePutDoc/handlePostDoc, rest/bulk_api.go handleBulkDocs,
             db/crud.go Put / PutExistingRevWithBody / import, db/blip_handler.go handleRev)
      cur    index of the winning revision (0 = no document)
+     tomb   set of revisions that are tombstones (DELETE of a leaf adds one as its child; it carries no body)
      obs    the last externally visible outcome: the results of reading every cell, or the outcome of a
             reserved-property write
    Ghost variables
@@ -17,7 +18,10 @@
      by       by[i] = write path that created revision i
      hist     behaviour (write steps only)
 
-   kind of a revision: current (winning leaf), conflict (other leaf), old (superseded, non-leaf). *)
+   kind of a revision: current (winning leaf), conflict (other live leaf), old (superseded, non-leaf), promoted (a
+   formerly non-winning leaf that became the winner because the winning branch was tombstoned: db/crud.go
+   storeOldBodyInRevTreeAndUpdateCurrent -> db/document.go promoteNonWinningRevisionBody moves its body from the
+   revision tree back into the document), tombstone (no body, never read). *)
 EXTENDS Integers, Sequences, FiniteSets, TLC
 
 CONSTANTS WP,         \* write paths in scope
@@ -29,12 +33,13 @@ AllRP == {"GetDoc", "GetRev", "OpenRevsAll", "OpenRevsList", "BulkGet", "AllDocs
           "BlipPull", "PeerPush", "PeerPull"}
 ASSUME WP \subseteq AllWP /\ RP \subseteq AllRP /\ MaxSteps \in 1..4
 
-Kinds  == {"current", "old", "conflict"}
+Kinds  == {"current", "old", "conflict", "promoted"}
+DelWP  == "DeleteSingle"        \* DELETE doc?rev=<winning leaf> (rest/doc_api.go handleDeleteDoc -> db/crud.go DeleteDoc)
 Caches == {"warm", "cold"}      \* revision cache populated by the write / emptied before the read
 
-VARIABLES tree, cur, obs, written, by, hist
-vars == <<tree, cur, obs, written, by, hist>>
-view == <<tree, cur, obs, written, by>>
+VARIABLES tree, cur, tomb, obs, written, by, hist
+vars == <<tree, cur, tomb, obs, written, by, hist>>
+view == <<tree, cur, tomb, obs, written, by>>
 
 -----------------------------------------------------------------------------
 (* capabilities of the write paths *)
@@ -44,13 +49,16 @@ BranchCapable == WP \cap {"BulkDocsNE", "PutSingleNE", "BlipPushRev"}   \* can a
 N == Len(tree)
 Revs == 1..N
 IsLeaf(i) == \A j \in Revs : tree[j] # i
-Kind(i) == IF i = cur THEN "current" ELSE IF IsLeaf(i) THEN "conflict" ELSE "old"
+Kind(i) == IF i \in tomb THEN "tombstone"
+           ELSE IF i = cur THEN (IF tomb = {} THEN "current" ELSE "promoted")
+           ELSE IF IsLeaf(i) THEN "conflict" ELSE "old"
 
 (* which read path can address which kind of revision *)
 Applicable(rp, kind) ==
-  CASE rp \in {"GetRev", "OpenRevsList", "BulkGet"} -> TRUE
-    [] rp = "OpenRevsAll" -> kind \in {"current", "conflict"}          \* open_revs=all lists the leaves
-    [] OTHER -> kind = "current"                                        \* GetDoc, AllDocs, Changes, Raw, BlipPull, Peer*
+  CASE kind = "tombstone" -> FALSE
+    [] rp \in {"GetRev", "OpenRevsList", "BulkGet"} -> TRUE
+    [] rp = "OpenRevsAll" -> kind \in {"current", "promoted", "conflict"}   \* open_revs=all lists the leaves
+    [] OTHER -> kind \in {"current", "promoted"}                        \* GetDoc, AllDocs, Changes, Raw, BlipPull, Peer*
 (* replication reads run once, after the revision cache was emptied *)
 CachesFor(rp) == IF rp \in {"BlipPull", "PeerPush", "PeerPull"} THEN {"cold"} ELSE Caches
 (* superseded revisions are kept best-effort (revision cache, expiring backup): 404 is legal for them *)
@@ -87,26 +95,36 @@ AllClasses == UNION {ResvClasses(wp) : wp \in AllWP}
 NoObs == [k |-> "none"]
 Step(act, wp, wins, cls, tok) == hist' = Append(hist, [act |-> act, wp |-> wp, wins |-> wins, cls |-> cls, tok |-> tok])
 NextTok == Len(hist) + 1          \* the token written at step s is token s: all tokens of a behaviour differ
-Closed == Len(hist) > 0 /\ hist[Len(hist)].act = "WriteReserved"
+Closed == Len(hist) > 0 /\ hist[Len(hist)].act \in {"WriteReserved", "TombstoneWinner"}
 
-Init == tree = <<>> /\ cur = 0 /\ obs = NoObs /\ written = <<>> /\ by = <<>> /\ hist = <<>>
+Init == tree = <<>> /\ cur = 0 /\ tomb = {} /\ obs = NoObs /\ written = <<>> /\ by = <<>> /\ hist = <<>>
 
 (* ---- Create: first revision of a document ---- *)
-ImplCreate == tree' = <<0>> /\ cur' = 1 /\ obs' = NoObs
+ImplCreate == tree' = <<0>> /\ cur' = 1 /\ tomb' = {} /\ obs' = NoObs
 GhostCreate(wp, b) == written' = <<b>> /\ by' = <<wp>>
 Create(wp) == N = 0 /\ ImplCreate /\ GhostCreate(wp, NextTok) /\ Step("Create", wp, FALSE, "", NextTok)
 
 (* ---- Supersede: child of the current revision; the parent's body moves out of the document ---- *)
-ImplSupersede == tree' = Append(tree, cur) /\ cur' = N + 1 /\ obs' = NoObs
+ImplSupersede == tree' = Append(tree, cur) /\ cur' = N + 1 /\ UNCHANGED tomb /\ obs' = NoObs
 GhostWrite(wp, b) == written' = Append(written, b) /\ by' = Append(by, wp)
 Supersede(wp) == N > 0 /\ wp \in ChildCapable /\ ImplSupersede /\ GhostWrite(wp, NextTok)
                  /\ Step("Supersede", wp, FALSE, "", NextTok)
 
 (* ---- Branch: a revision beside the current one (same parent; a second root when the current one is a root).
         wins: the new revision id sorts above the current one, so it becomes the winner ---- *)
-ImplBranch(wins) == tree' = Append(tree, tree[cur]) /\ cur' = (IF wins THEN N + 1 ELSE cur) /\ obs' = NoObs
+ImplBranch(wins) == tree' = Append(tree, tree[cur]) /\ cur' = (IF wins THEN N + 1 ELSE cur) /\ UNCHANGED tomb /\ obs' = NoObs
 Branch(wp, wins) == N > 0 /\ wp \in BranchCapable /\ ImplBranch(wins) /\ GhostWrite(wp, NextTok)
                     /\ Step("Branch", wp, wins, "", NextTok)
+
+(* ---- TombstoneWinner: the winning leaf of a document with exactly two live leaves is deleted; a tombstone becomes its
+        child and the OTHER leaf is promoted to current: its body moves from the revision tree into the document.
+        Allowed one step beyond MaxSteps and closes the behaviour ---- *)
+LiveLeaves == {i \in Revs : IsLeaf(i) /\ i \notin tomb}
+OtherLeaf == CHOOSE i \in LiveLeaves : i # cur
+ImplTombstoneWinner == tree' = Append(tree, cur) /\ tomb' = tomb \cup {N + 1} /\ cur' = OtherLeaf /\ obs' = NoObs
+GhostTombstone == written' = Append(written, 0) /\ by' = Append(by, DelWP)
+TombstoneWinner == N > 0 /\ Cardinality(LiveLeaves) = 2 /\ tomb = {} /\ ImplTombstoneWinner /\ GhostTombstone
+                   /\ Step("TombstoneWinner", DelWP, FALSE, "", NextTok)
 
 (* ---- WriteReserved: a body carrying a reserved property of class cls; create mode on an absent document,
         update mode on a document holding one revision.  A must-reject class leaves everything untouched. ---- *)
@@ -116,14 +134,14 @@ ResvEnabled(wp, cls) ==
   /\ \/ N = 0
      \/ N = 1 /\ by = <<"PutSingle">> /\ wp \in ChildCapable \ {"ExtImport", "BlipPushRev"}
 ImplWriteReserved(wp, cls) ==
-  /\ UNCHANGED <<tree, cur>>
+  /\ UNCHANGED <<tree, cur, tomb>>
   /\ \E s \in {400, 404, 409} :
        obs' = [k |-> "resv", wp |-> wp, cls |-> cls, mode |-> ResvMode, status |-> s, stored |-> FALSE,
                getStatus |-> IF N = 0 THEN 404 ELSE 200]
 WriteReserved(wp, cls) == ResvEnabled(wp, cls) /\ cls \in MustReject(wp) /\ ImplWriteReserved(wp, cls)
                           /\ UNCHANGED <<written, by>> /\ Step("WriteReserved", wp, FALSE, cls, NextTok)
 (* lenient classes are driven too; the model says nothing about their effect, so they end the behaviour *)
-WriteLenient(wp, cls) == ResvEnabled(wp, cls) /\ cls \in Lenient(wp) /\ UNCHANGED <<tree, cur, written, by>>
+WriteLenient(wp, cls) == ResvEnabled(wp, cls) /\ cls \in Lenient(wp) /\ UNCHANGED <<tree, cur, tomb, written, by>>
                          /\ obs' = [k |-> "lenient", wp |-> wp, cls |-> cls, mode |-> ResvMode, status |-> 201]
                          /\ Step("WriteReserved", wp, FALSE, cls, NextTok)
 
@@ -132,13 +150,14 @@ WriteLenient(wp, cls) == ResvEnabled(wp, cls) /\ cls \in Lenient(wp) /\ UNCHANGE
 CellsNow == {c \in Revs \X RP \X Caches : Applicable(c[2], Kind(c[1])) /\ c[3] \in CachesFor(c[2])}
 ModelRead(c) == [rev |-> c[1], rp |-> c[2], cache |-> c[3], status |-> 200, valid |-> TRUE, got |-> written[c[1]],
                  extra |-> {"_id", "_rev"}]
-ImplReadAll == UNCHANGED <<tree, cur>> /\ obs' = [k |-> "reads", items |-> {ModelRead(c) : c \in CellsNow}]
+ImplReadAll == UNCHANGED <<tree, cur, tomb>> /\ obs' = [k |-> "reads", items |-> {ModelRead(c) : c \in CellsNow}]
 ReadAll == N > 0 /\ obs.k \in {"none", "resv"} /\ ImplReadAll /\ UNCHANGED <<written, by, hist>>
 
 Next ==
   \/ /\ Len(hist) < MaxSteps /\ ~Closed
      /\ \E wp \in WP : \/ Create(wp) \/ Supersede(wp) \/ \E w \in BOOLEAN : Branch(wp, w)
                        \/ \E cls \in ResvClasses(wp) : WriteReserved(wp, cls) \/ WriteLenient(wp, cls)
+  \/ (Len(hist) <= MaxSteps /\ ~Closed /\ TombstoneWinner)
   \/ ReadAll
 Spec == Init /\ [][Next]_vars
 
@@ -166,15 +185,16 @@ ReservedRejected ==
 -----------------------------------------------------------------------------
 (* auxiliary / design invariants *)
 TypeOK ==
-  /\ tree \in Seq(0..MaxSteps) /\ cur \in 0..N /\ (N > 0 => cur \in Revs)
+  /\ tree \in Seq(0..MaxSteps + 1) /\ cur \in 0..N /\ (N > 0 => cur \in Revs) /\ tomb \subseteq Revs /\ cur \notin tomb
   /\ Len(written) = N /\ Len(by) = N
-  /\ \A i \in Revs : tree[i] < i /\ by[i] \in WP /\ written[i] \in 1..MaxSteps
+  /\ \A i \in Revs : tree[i] < i /\ by[i] \in WP \cup {DelWP} /\ written[i] \in 0..MaxSteps + 1
+  /\ \A i \in Revs : (i \in tomb) = (written[i] = 0)
   /\ obs.k \in {"none", "reads", "resv", "lenient"}
 WinnerIsLeaf == N > 0 => IsLeaf(cur)
 TokensDistinct == \A i, j \in Revs : written[i] = written[j] => i = j
 (* the declared matrix: every (write path, kind, read path) combination the bounded model must reach *)
-Matrix == {<<w, k, r>> \in WP \X Kinds \X RP : Applicable(r, k) /\ (k = "current" \/ MaxSteps >= 2)}
+Matrix == {<<w, k, r>> \in WP \X Kinds \X RP : Applicable(r, k) /\ (k = "current" \/ MaxSteps >= 2)}   \* promoted: every write path
 Cells == {<<by[p[1]], Kind(p[1]), p[2]>> : p \in {q \in Revs \X RP : Applicable(q[2], Kind(q[1]))}}
 CellsDeclared == Cells \subseteq Matrix
-ReservedNoop == [][(Len(hist') > Len(hist) /\ hist'[Len(hist')].act = "WriteReserved") => UNCHANGED <<tree, cur, written, by>>]_vars
+ReservedNoop == [][(Len(hist') > Len(hist) /\ hist'[Len(hist')].act = "WriteReserved") => UNCHANGED <<tree, cur, tomb, written, by>>]_vars
 =============================================================================
